@@ -262,7 +262,12 @@ Fixpoint run_obs (h : hub) (es : list ev) : list obs :=
 (* a case: the linearised history of one SKI on a real hub.Hub — operations and the
    deliveries in the order they happened (EDeliver i = the delivered object was the i-th
    pending one), and everything the harness saw *)
-Record c18_case := mkCase { k_started : bool; k_evs : list ev; k_obs : list obs }.
+Inductive c18_case :=
+| CUnit (k_started : bool) (k_evs : list ev) (k_obs : list obs)
+(* system level, two real hubs: the operations and the connection's state changes in the
+   order they happened (no deliveries: not observable), the states the notifications for
+   the peer's SKI showed, in order of receipt, and PairingDetailForSki at quiescence *)
+| CSys (k_started : bool) (k_evs : list ev) (k_notes : list N) (k_ans : N).
 
 Definition obs_notes (l : list obs) : list obs :=
   filter (fun o => match o with ONote _ _ _ => true | _ => false end) l.
@@ -306,15 +311,58 @@ Fixpoint impl_terminal_ok (h : hub) (prev : option (N * err)) (es : list ev) (o 
       ok && impl_terminal_ok (step h e) (match e with EReport s er => Some (s, er) | _ => prev end) r (skipn k o)
   end.
 
-Definition check_c18 (c : c18_case) : codes :=
-  let h0 := init (k_started c) in
-  let h := run h0 (k_evs c) in
+Definition check_unit (st : bool) (evs : list ev) (o : list obs) : codes :=
+  let h0 := init st in
+  let h := run h0 evs in
   let l := rev (log h) in
-  (if list_eqb obs_eqb (run_obs h0 (k_evs c)) (k_obs c) then [] else [1])
+  (if list_eqb obs_eqb (run_obs h0 evs) o then [] else [1])
   ++ (if mon_order h then []
       else (if overtaken l then [10] else [])
            ++ (if inverted l then [11] else [])
            ++ (if overtaken l || inverted l then [] else [13]))
-  ++ (if negb (wf_reports (k_evs c)) || impl_last_ok h (k_evs c) (k_obs c) then []
+  ++ (if negb (wf_reports evs) || impl_last_ok h evs o then []
       else if inverted l then [] (* already reported as 11 by the order monitor *) else [12])
-  ++ (if impl_terminal_ok h0 None (k_evs c) (k_obs c) then [] else [15]).
+  ++ (if impl_terminal_ok h0 None evs o then [] else [15]).
+
+(* system level: deliver everything that is pending, oldest first *)
+Fixpoint flush (n : nat) (h : hub) : hub :=
+  match n with O => h | S k => flush k (deliver 0 h) end.
+
+Fixpoint insert_sorted (x : N) (l : list N) : list N :=
+  match l with
+  | [] => [x]
+  | y :: r => if N.leb x y then x :: l else y :: insert_sorted x r
+  end.
+Definition sort_n (l : list N) : list N := fold_right insert_sorted [] l.
+Definition same_multiset (a b : list N) : bool := list_eqb N.eqb (sort_n a) (sort_n b).
+
+Definition last_report (es : list ev) : option (N * err) :=
+  fold_left (fun acc e => match e with EReport s er => Some (s, er) | _ => acc end) es None.
+
+(* the notifications received must be the FIFO ones in some order (code 1 otherwise); the
+   last one received must show the state answered (11 when they are the FIFO ones in another
+   order, 12 otherwise); a registered connection's terminal state is answered as expected *)
+Definition check_sys (st : bool) (evs : list ev) (notes : list N) (ans : N) : codes :=
+  let h := run (init st) evs in
+  let hq := flush (length (pending h)) h in
+  let fifo_notes := map n_st (rev (log hq)) in
+  let perm := same_multiset notes fifo_notes in
+  let last_ok := match rev notes with [] => N.eqb ans ConnectionStateNone | s :: _ => N.eqb s ans end in
+  (if perm then [] else [1])
+  ++ (if negb (settled hq) || negb (wf_reports evs) || last_ok then []
+      else if perm && negb (list_eqb N.eqb notes fifo_notes) then [11] else [12])
+  ++ (if conn hq && wf_reports evs then
+        match last_report evs with
+        | Some (s, er) => match expected_terminal s er with
+                          | Some x => if N.eqb ans x then [] else [15]
+                          | None => []
+                          end
+        | None => []
+        end
+      else []).
+
+Definition check_c18 (c : c18_case) : codes :=
+  match c with
+  | CUnit st evs o => check_unit st evs o
+  | CSys st evs notes ans => check_sys st evs notes ans
+  end.
